@@ -49,16 +49,16 @@ PROPS["C10"] = {
     "trusted_base": ["net/http Cookie.String() serialisation is modelled (Model/Cookies.v) and compared byte for byte on every case",
                      "net/http/cookiejar as the browser; Model/Jar.v is compared with it at the end of every history (names and values)",
                      "miniredis as the Redis server for the real-client histories"],
-    "level_text": "c10_history (any sequence of saves of any sizes and clears, each computed from and applied to the browser jar: after a "
+    "level_text": "c10_ticket_load_after_save / c10_ticket_nothing_after_clear (server-side store: from any jar satisfying the invariant and any store contents, a save followed by a request loads exactly what was saved under the ticket the cookie names, and after a clear neither the cookie nor the entry is left); c10_history (any sequence of saves of any sizes and clears, each computed from and applied to the browser jar: after a "
                   "save the next request loads exactly that value and timestamp, after a clear no cookie of the family is left and nothing "
                   "loads, cookies outside the family are untouched), c10_parts (parts concatenate to the signed value, each <= "
                   "maxCookieLength <= 4096, numbered names), c10_split_progress, c10_load_after_save, c10_clear_complete, "
                   "c10_ts_ok_range (itoa/atoi round trip on the int64 range) are proved for all inputs of the Gallina model of "
                   "pkg/sessions/cookie and of the jar; the model's Save/Load/Clear and the jar are compared with the Go functions and "
                   "net/http/cookiejar on save/clear histories on every run.",
-    "level_note": "The theorem is about the cookie store; for the server-side store the history clause is decided by the oracle over "
-                  "the real persistence manager and Redis client (in-memory client and miniredis), the ticket cookie itself being a "
-                  "cookie of the same family handled by the same jar argument (Model/Ticket.v, C02/C13 theorems).",
+    "level_note": "c10_history is about the cookie store; the server-side store has the one-step theorems above (Model/JarSession.v ticket_step over "
+                  "a key-value store) and the oracle over the real persistence manager and Redis client (in-memory client and miniredis); "
+                  "Redis' own durability is outside the model.",
 }
 
 PROPS["C03"] = {
@@ -121,11 +121,11 @@ PROPS["C18"] = {
     "assumptions": ["net/http Cookie.String() is modelled (Model/Cookies.v: attribute order, Domain validity rule, Max-Age rendering)",
                     "configured domains are sorted longest-first (validation does it with sort.Slice; equal lengths excluded in the sweep)"],
     "trusted_base": ["reference Domain rule written in the driver (vRefDomain) from the property text, independent of repository code"],
-    "level_text": "c18_attrs, c18_domain (for every host string and every longest-first domain list: longest configured suffix of the port-less "
+    "level_text": "c18_cookie_surface_pinned / c18_cookie_surface_reviewed (every http.Cookie literal, http.SetCookie call, Set-Cookie header name, cookie-attribute write and constructor call in ALL non-test sources, regenerated on every run, is the reviewed list, in which every emission hands over a cookie that came out of the constructor); c18_attrs, c18_domain (for every host string and every longest-first domain list: longest configured suffix of the port-less "
                   "host, else the shortest, else none), c18_delete, c18_session_parts and c18_size (<= 4096) are proved for all inputs of the "
                   "Gallina model of MakeCookieFromOptions / GetCookieDomain / makeSessionCookie; the model is compared byte for byte with the "
                   "constructor on a sweep and an oracle monitors every Set-Cookie of complete flows on every run.",
-    "level_note": "That MakeCookieFromOptions is the only constructor reaching http.SetCookie is checked by the flows' monitor, not by a theorem.",
+    "level_note": "That MakeCookieFromOptions is the only constructor reaching http.SetCookie is the pinned inventory (its per-entry classification is a reviewed annotation) and the flows' monitor.",
 }
 
 PROPS["C15"] = {
@@ -180,11 +180,11 @@ PROPS["C07"] = {
     "assumptions": ["net/http Header Add/Del/Set and textproto.CanonicalMIMEHeaderKey are modelled (association list with canonical keys)",
                     "time.Time.String() rendering of created_at / expires_on is passed through as an opaque string"],
     "trusted_base": ["spoof markers and reconstruction of the expected user / access-token header in the driver"],
-    "level_text": "c07_request (for every client header map, optional session and configuration: value under a configured name = client "
+    "level_text": "c07_legacy_request_authorization / c07_legacy_response_authorization / c07_legacy_preserve_uniform (the conversion of the legacy flags, Model/LegacyHeaders.v: which Authorization entry each flag combination yields and that every generated entry carries the same preserve bit = not skip-auth-strip-headers), compared with LegacyHeaders.convert on all 2x512 flag masks on every run; c07_request (for every client header map, optional session and configuration: value under a configured name = client "
                   "values only if no entry strips it, then the session/secret-derived values in configuration order, comma-joined), "
                   "c07_client_values_ignored (non-interference for stripped names), c07_bypass, c07_empty_claim, c07_response are proved on "
                   "the Gallina model of stripHeaders / Inject / flattenHeaders / GetClaim; compared with the Go injectors on every run.",
-    "level_note": "legacy flag conversion (LegacyHeaders.convert) is exercised on the real proxy with oracles, not modelled in Coq.",
+    "level_note": "the basic-auth password secret source and the header injectors' use of the converted list are covered by the injector model; flag parsing (pflag) is library behaviour.",
 }
 
 PROPS["C06"] = {
@@ -222,12 +222,12 @@ PROPS["C16"] = {
     "assumptions": ["the decision projection drops the fresh random parts of the login URL (state nonce, OIDC nonce, PKCE challenge) and "
                     "the request id"],
     "trusted_base": ["the projection function vDecision in the driver"],
-    "level_text": "c16_serve_request_ignores_forwarding (over the composition of Model/Compose.v: requests differing only in forwarded URI / client-IP header get the same answer with reverse-proxy off); c16_accessors, c16_redirect and c16_oauth_redirect_uri (2-safety: requests that differ only in X-Forwarded-Host/-Proto/-Uri "
+    "level_text": "c16_forwarded_surface_pinned / c16_forwarded_surface_reviewed (every mention of a forwarding or client-IP header name, of the constants naming them, of the client-IP parser and of the reverse-proxy flag in ALL non-test sources, regenerated on every run, is the reviewed list) and c16_accessor_shapes (the three accessors still have the guarded shape the model assumes, IsProxied is the scope flag); c16_serve_request_ignores_forwarding (over the composition of Model/Compose.v: requests differing only in forwarded URI / client-IP header get the same answer with reverse-proxy off); c16_accessors, c16_redirect and c16_oauth_redirect_uri (2-safety: requests that differ only in X-Forwarded-Host/-Proto/-Uri "
                   "get the same redirect target and OAuth redirect URI when reverse-proxy is off), c16_bypass_path, c16_trusted_ip_off / "
                   "c16_trusted_ip_on, c16_cookie_domain are proved on the Gallina models of pkg/requests/util, the redirect director, "
                   "getOAuthRedirectURI, GetRequestPath and GetClientIP; pairs of real requests are compared on every run.",
-    "level_note": "the models read the forwarding headers through explicit record fields; that the Go code reads them nowhere else is what the "
-                  "pairwise runs on the real proxy check.",
+    "level_note": "the models read the forwarding headers through explicit record fields; that the Go code reads them nowhere else is the "
+                  "pinned inventory (its per-entry classification is a reviewed annotation) and the pairwise runs on the real proxy.",
 }
 
 PROPS["C11"] = {
@@ -282,7 +282,7 @@ PROPS["C13"] = {
     "assumptions": ["corrupted / truncated values are rejected by AES-GCM authentication or msgpack decoding (modelled: every fault on a "
                     "read makes the load fail); lock semantics of the in-memory client, not redislock"],
     "trusted_base": ["the fault-injecting store client in the driver"],
-    "level_text": "for EVERY fault plan (a function from operation index to fault kind): c13_auth (upstream only if both reads were unfaulted "
+    "level_text": "c13_outage (every store operation of a request failing: nothing reaches the upstream, no session cookie is set, login and sign-out answer with the error page, readiness fails); for EVERY fault plan (a function from operation index to fault kind): c13_auth (upstream only if both reads were unfaulted "
                   "and the lock obtained without error), c13_faulted_read_unauth / _lock_ / _reload_, c13_cookie_callback and "
                   "c13_cookie_refresh (a session cookie only after a successful write), c13_signout, c13_ready, and the exact "
                   "characterisation of the strict clause c13_strict_characterisation with c13_strict_refuted_save (finding F8) are proved on "
@@ -330,8 +330,9 @@ PROPS["C05"] = {
     "level_note": "_partial: the secrecy theorems hold in the symbolic model (perfect hash / encryption by construction); the leak scan of "
                   "everything sent to the browser supports them on the real bytes.",
 }
+PROVIDERS = {"pkg": "providers", "overlay": "providers"}
 PROPS["C14"] = {
-    "drivers": [dict(MAIN, timeout=3000)],
+    "drivers": [dict(MAIN, timeout=3000), dict(PROVIDERS, prop="C14")],
     "rule": "every identity-provider call position of the login (token endpoint, profile endpoint for a missing claim and for email_verified, "
             "key retrieval), bearer (key retrieval) and refresh (token endpoint; expired and invalid old sessions) flows x 16 response kinds "
             "(5xx, 4xx, connection reset, timeout, empty body, truncated JSON, non-JSON, JSON array, missing id_token / access_token, "
@@ -339,10 +340,10 @@ PROPS["C14"] = {
             "provider entry paths with a failing profile endpoint are compared with the model; non-trivial = all",
     "assumptions": OIDC_ASSUME + ["'slow beyond timeout' is injected as a context-deadline error from the transport"],
     "trusted_base": ["the in-memory provider's fault injection"],
-    "level_text": "c14_no_id_token, c14_unverified, c14_audience_wrong_type, c14_profile_failure, c14_refresh_failure are proved on the Gallina "
+    "level_text": "c14_generic_login_only_if / c14_generic_error_status_no_session / c14_generic_validate_only_if (non-OIDC provider family, Model/GenericProvider.v: a session only from a 200 token response carrying an access token, validation only from a 200 answer), compared with the generic provider on every run; c14_no_id_token, c14_unverified, c14_audience_wrong_type, c14_profile_failure, c14_refresh_failure are proved on the Gallina "
                   "models (Oidc.v, Refresh.v); oracles on the real proxy check that no session is created or extended at any faulted position "
-                  "and that handling does not panic, on every run.",
-    "level_note": "transport-level behaviour (timeouts, resets) is exercised, not modelled.",
+                  "and that handling does not panic, on every run; a sweep over every provider implementation (19 configurations built by NewProvider) replaces one position of one response document by a value of another JSON type and checks that no provider call panics.",
+    "level_note": "transport-level behaviour (timeouts, resets) is exercised, not modelled; the provider-specific decoders outside the OIDC / generic families are covered by the panic-site inventory (C19) and the sweep, not by a model.",
 }
 
 BASIC = {"pkg": "pkg/authentication/basic", "overlay": "basic"}
@@ -393,7 +394,7 @@ PROPS["C17"] = {
 }
 
 PROPS["C19"] = {
-    "drivers": [dict(MAIN, timeout=3000)],
+    "drivers": [dict(MAIN, timeout=3000), dict(PROVIDERS, prop="C19")],
     "rule": "grammar-based mutation of whole raw requests (request target over every endpoint with 31 query variants incl. state/code/rd/allowed_* "
             "values, ~70 Cookie header variants built from this proxy's own session, stale-session and CSRF cookies, 21 Authorization "
             "variants incl. valid/mutated bearer tokens and basic credentials, 22 forwarding / client-IP / Accept / upgrade header sets, "
@@ -406,10 +407,10 @@ PROPS["C19"] = {
                     "panics inside net/http, gorilla/mux, go-oidc or other libraries are only found by the request fuzzing"],
     "trusted_base": ["translator go/xlate/sites.go and guards.go (inventory and guard shapes from the Go AST)"],
     "level_text": "c19_sites_pinned (the inventory of slice / constant-index / unchecked-assertion / panic / MustCompile sites regenerated from the "
-                  "request-path packages equals the reviewed list) and c19_no_unguarded_site, plus guard theorems for every input over Go's "
+                  "request-path packages, every provider implementation, pkg/requests and pkg/logger equals the reviewed list) and c19_no_unguarded_site, plus guard theorems for every input over Go's "
                   "partial operations with the guard operator and constant regenerated from the source: c19_allowed_email_domains, "
                   "c19_decode_state, c19_validate_parts, c19_split_auth_header, c19_basic_credentials, c19_parse_jwt, c19_state_substring, "
-                  "c19_cfb_decrypt, c19_gcm_decrypt; request fuzzing over 8 configurations on every run searches for a concrete crashing input.",
+                  "c19_cfb_decrypt, c19_gcm_decrypt; request fuzzing over 8 configurations, a logging-format sweep and the provider response sweep on every run search for a concrete crashing input.",
     "level_note": "_partial: there is no single serve-function model from which absence of panics follows; the theorems cover the listed guarded "
                   "sites, the rest of the inventory is covered by its reviewed classification and the fuzzing.",
 }
